@@ -499,7 +499,7 @@ const tRetry = "TestRetry"
 type retryCase struct {
 	Kind     string   `json:"kind"` // Worker.Retry | Producer.Retry | Processor.Retry
 	N        int      `json:"n"`
-	Outcomes []string `json:"outcomes"` // per attempt: ok | err | skip | eof | abort | ctx
+	Outcomes []string `json:"outcomes"` // per attempt: ok | err | skip | eof | abort | ctx | eof-joined | abort-joined | ctx-multi (the terminating error inside errors.Join / a two-%w error)
 }
 
 func runRetry(c *retryCase) string {
@@ -523,6 +523,13 @@ func runRetry(c *retryCase) string {
 			return 0, ers.ErrCurrentOpAbort
 		case "ctx":
 			return 0, context.Canceled
+		case "eof-joined":
+			// terminating errors that arrive inside a multi-error
+			return 0, errors.Join(io.EOF, fmt.Errorf("attempt %d: closing the source", i))
+		case "abort-joined":
+			return 0, errors.Join(fmt.Errorf("attempt %d: cleaning up", i), ers.ErrCurrentOpAbort)
+		case "ctx-multi":
+			return 0, fmt.Errorf("attempt %d: %w (while %w)", i, context.Canceled, errors.New("flushing"))
 		}
 		e := fmt.Errorf("attempt %d failed", i)
 		if i < len(errs) {
@@ -553,7 +560,7 @@ func runRetry(c *retryCase) string {
 			succeeded = i
 			break
 		}
-		if out == "eof" || out == "abort" || out == "ctx" {
+		if out == "eof" || out == "abort" || out == "ctx" || out == "eof-joined" || out == "abort-joined" || out == "ctx-multi" {
 			stopped = true
 			break
 		}
@@ -605,7 +612,7 @@ func TestRetry(t *testing.T) {
 		c := &retryCase{
 			Kind:     rapid.SampledFrom([]string{"Worker.Retry", "Producer.Retry", "Processor.Retry"}).Draw(t, "kind"),
 			N:        rapid.IntRange(0, 6).Draw(t, "n"),
-			Outcomes: rapid.SliceOfN(rapid.SampledFrom([]string{"ok", "err", "err", "err", "skip", "eof", "abort", "ctx"}), 0, 8).Draw(t, "outcomes"),
+			Outcomes: rapid.SliceOfN(rapid.SampledFrom([]string{"ok", "err", "err", "err", "err", "skip", "eof", "abort", "ctx", "eof-joined", "abort-joined", "ctx-multi"}), 0, 8).Draw(t, "outcomes"),
 		}
 		if why := runRetry(c); why != "" {
 			vkit.Fail(t, tRetry, "C15:retry/"+c.Kind, *c, "%s", why)
